@@ -26,6 +26,7 @@ const cborPath = "github.com/fxamacker/cbor/v2"
 type Prog struct {
 	Repo         string
 	kindsBusy    map[*ssa.Function]bool
+	expandKeep   func(*ssa.Function) bool // functions expand() leaves as calls (set temporarily)
 	casePathMemo map[*ssa.Function][]*Path
 	Fset         *token.FileSet
 	Pkg          *packages.Package
